@@ -511,7 +511,8 @@ type inlSite struct {
 	call   *ast.CallExpr
 	assign *ast.AssignStmt // for assign / ifinit / thread
 	ifs    *ast.IfStmt     // for ifinit / thread / condthread
-	neg    bool            // condthread: the condition is !call
+	neg    bool            // condthread: the condition is !call; thread with okv: the condition is !ok
+	okv    bool            // thread: the caller tests the last result as a boolean (`if ok`), not `err != nil`
 	start  token.Pos
 	end    token.Pos
 }
@@ -732,6 +733,28 @@ func errCheck(s ast.Stmt, name string) *ast.IfStmt {
 	return ifs
 }
 
+// boolTest recognises `name` and `!name` as a condition.
+func boolTest(cond ast.Expr, name string) (neg, ok bool) {
+	if u, isU := cond.(*ast.UnaryExpr); isU && u.Op == token.NOT {
+		cond, neg = u.X, true
+	}
+	id, isID := cond.(*ast.Ident)
+	return neg, isID && id.Name == name
+}
+
+// okCheck: `if ok { … }` / `if !ok { … }` without init and else, on the given variable.
+func okCheck(s ast.Stmt, name string) (*ast.IfStmt, bool) {
+	ifs, ok := s.(*ast.IfStmt)
+	if !ok || ifs.Init != nil || ifs.Else != nil {
+		return nil, false
+	}
+	neg, isTest := boolTest(ifs.Cond, name)
+	if !isTest {
+		return nil, false
+	}
+	return ifs, neg
+}
+
 func isNotNil(cond ast.Expr, name string) bool {
 	be, ok := cond.(*ast.BinaryExpr)
 	if !ok || be.Op != token.NEQ {
@@ -770,6 +793,9 @@ func inlinableStmt(st, next ast.Stmt) *inlSite {
 					if ifs := errCheck(next, ev); ifs != nil {
 						return &inlSite{kind: "thread", call: c, assign: x, ifs: ifs, start: st.Pos(), end: next.End()}
 					}
+					if ifs, neg := okCheck(next, ev); ifs != nil {
+						return &inlSite{kind: "thread", call: c, assign: x, ifs: ifs, okv: true, neg: neg, start: st.Pos(), end: next.End()}
+					}
 				}
 				return &inlSite{kind: "assign", call: c, assign: x, start: st.Pos(), end: st.End()}
 			}
@@ -799,6 +825,11 @@ func inlinableStmt(st, next ast.Stmt) *inlSite {
 			if c := asCall(as.Rhs[0]); c != nil {
 				if ev := lastIdent(as); ev != "" && x.Else == nil && isNotNil(x.Cond, ev) {
 					return &inlSite{kind: "thread", call: c, assign: as, ifs: x, start: st.Pos(), end: st.End()}
+				}
+				if ev := lastIdent(as); ev != "" && x.Else == nil {
+					if neg, isTest := boolTest(x.Cond, ev); isTest {
+						return &inlSite{kind: "thread", call: c, assign: as, ifs: x, okv: true, neg: neg, start: st.Pos(), end: st.End()}
+					}
 				}
 				return &inlSite{kind: "ifinit", call: c, assign: as, ifs: x, start: st.Pos(), end: st.End()}
 			}
@@ -835,7 +866,7 @@ func inlineAt(p *Prog, pk *packages.Package, file *ast.File, src []byte, site *i
 	ctext := func(a, b token.Pos) string { return string(ce.src[ctf.Offset(a):ctf.Offset(b)]) }
 	fd := ce.decl
 	sig := ce.obj.Type().(*types.Signature)
-	if sig.Variadic() || call.Ellipsis != token.NoPos {
+	if call.Ellipsis != token.NoPos && !sig.Variadic() {
 		return "", nil, "variadic"
 	}
 	if ce.pk != pk {
@@ -1073,6 +1104,11 @@ func inlineAt(p *Prog, pk *packages.Package, file *ast.File, src []byte, site *i
 			return "", nil, "assignment arity"
 		}
 		tok = as.Tok.String()
+		if site.kind == "thread" && site.okv {
+			if b, ok := res.At(res.Len()-1).Type().Underlying().(*types.Basic); !ok || b.Kind() != types.Bool {
+				return "", nil, "tested result is not a boolean"
+			}
+		}
 		if site.kind == "thread" {
 			for i, l := range as.Lhs {
 				id, isID := l.(*ast.Ident)
@@ -1140,12 +1176,38 @@ func inlineAt(p *Prog, pk *packages.Package, file *ast.File, src []byte, site *i
 			cnt = 1
 		}
 		for k := 0; k < cnt; k++ {
-			if pi >= len(call.Args) {
-				return "", nil, "argument count"
-			}
 			pn := "_"
 			if len(fld.Names) > 0 && fld.Names[k].Name != "_" {
 				pn = fld.Names[k].Name + suf
+			}
+			if el, isVar := fld.Type.(*ast.Ellipsis); isVar {
+				// the variadic parameter: the slice handed over with `xs...`, or one made of the
+				// remaining arguments (nil when there are none)
+				sl := "[]" + ctext(el.Elt.Pos(), el.Elt.End())
+				var ax string
+				switch {
+				case call.Ellipsis != token.NoPos:
+					if pi != len(call.Args)-1 {
+						return "", nil, "argument count"
+					}
+					ax = "(" + sl + ")(" + text(call.Args[pi].Pos(), call.Args[pi].End()) + ")"
+				case pi >= len(call.Args):
+					ax = "(" + sl + ")(nil)"
+				default:
+					var parts []string
+					for _, a := range call.Args[pi:] {
+						parts = append(parts, text(a.Pos(), a.End()))
+					}
+					ax = sl + "{" + strings.Join(parts, ", ") + "}"
+				}
+				argNames = append(argNames, fmt.Sprintf("a%d%s", pi, suf))
+				argExprs = append(argExprs, ax)
+				parNames = append(parNames, pn)
+				pi = len(call.Args)
+				continue
+			}
+			if pi >= len(call.Args) {
+				return "", nil, "argument count"
 			}
 			ax := "(" + ctext(fld.Type.Pos(), fld.Type.End()) + ")(" + text(call.Args[pi].Pos(), call.Args[pi].End()) + ")"
 			argNames = append(argNames, fmt.Sprintf("a%d%s", pi, suf))
@@ -1255,6 +1317,19 @@ func inlineAt(p *Prog, pk *packages.Package, file *ast.File, src []byte, site *i
 				}
 			case res.Len() == 0:
 				t = "{ " + dfr + "break " + label + " }"
+			case site.kind == "thread" && site.okv:
+				// the caller's `if [!]ok RB` on the helper's last (boolean) result: a literal decides it here
+				chk := "if " + map[bool]string{true: "!", false: ""}[site.neg] + errVar + " " + rb + "; "
+				if len(x.Results) == res.Len() {
+					if id, ok := x.Results[len(x.Results)-1].(*ast.Ident); ok && (id.Name == "true" || id.Name == "false") && cinfo.Uses[id] == types.Universe.Lookup(id.Name) {
+						if (id.Name == "true") != site.neg {
+							chk = rb + "; "
+						} else {
+							chk = ""
+						}
+					}
+				}
+				t = "{ " + strings.Join(dst, ", ") + " = " + vals + "; " + dfr + chk + "break " + label + " }"
 			case site.kind == "thread":
 				chk := "if " + errVar + " != nil " + rb + "; "
 				if len(x.Results) == res.Len() {
@@ -1456,6 +1531,15 @@ func definitelyNonNil(pk *packages.Package, e ast.Expr) bool {
 			return false
 		}
 		p, n := pn.Imported().Path(), sel.Sel.Name
+		if p == "errors" && n == "Join" && call.Ellipsis == token.NoPos {
+			// errors.Join is nil only when every argument is
+			for _, a := range call.Args {
+				if definitelyNonNil(pk, a) {
+					return true
+				}
+			}
+			return false
+		}
 		return (p == "errors" && n == "New") || (p == "fmt" && n == "Errorf")
 	}
 	switch x := e.(type) {
